@@ -5,8 +5,8 @@
    project's absence_time_list attribute is carried next to the state.
    "complete without error": the model's editors are total functions; runtime
    exceptions of the implementation can only be searched (oracle). *)
-From Coq Require Import List ZArith QArith Bool Arith.
-From PV Require Import Model.Types Model.Sim Model.LogEdit Proofs.Base Proofs.C0708Proof Proofs.C18Proof Proofs.C18Extra.
+From Coq Require Import List ZArith QArith Bool Arith Sorted.
+From PV Require Import Model.Types Model.Sim Model.LogEdit Proofs.Base Proofs.C0708Proof Proofs.C18Proof Proofs.C18Extra Proofs.C18Dead.
 Import ListNotations.
 Open Scope nat_scope.
 
@@ -111,3 +111,20 @@ Example C18_example_beyond :
   rem_seq [3; 9] [5; 6; 7]%Q = [5; 6; 7]%Q /\ ins_seq (fun _ _ => 0%Q) [3; 9] [5; 6; 7]%Q = [5; 6; 7]%Q
   /\ len_rem [0; 1; 7] 3 = 1.
 Proof. vm_compute. repeat split. Qed.
+
+(* after a WHOLE insertion pass (ascending duplicate-free steps, as the project
+   editor builds them) every really inserted step holds a zero cost entry; at
+   project level: every new step inside the run costs nothing in the project's,
+   the organization's and every team's cost list *)
+Theorem C18_inserted_steps_are_zero_cost : forall steps, StronglySorted lt steps -> forall (l : list Q) j,
+  In j steps -> j < length l -> nth j (ins_seq (fun _ _ => 0%Q) steps l) 1%Q = 0%Q.
+Proof. exact inserted_steps_are_zero_cost. Qed.
+Print Assumptions C18_inserted_steps_are_zero_cost.
+
+Theorem C18_inserted_steps_cost_nothing : forall c l ab s j, Lens c s (time s) ->
+  In j (new_steps ab [] l) -> j < time s ->
+  let s' := snd (insert_absence c l (ab, s)) in
+  nth j (costl s') 1%Q = 0%Q /\ nth j (orgl s') 1%Q = 0%Q
+  /\ (forall g, g < nTeam c -> nth j (teaml s' g) 1%Q = 0%Q).
+Proof. exact inserted_steps_cost_nothing. Qed.
+Print Assumptions C18_inserted_steps_cost_nothing.
